@@ -67,7 +67,7 @@ StyleDistinct(l) ==
 
 Lit(f, n, sep, sfx) == [base |-> f.base, prefix |-> f.prefix, digits |-> DigitCharsOf(n, f), sep |-> sep, suffix |-> sfx]
 \* every suffix spelling without separators; separator placements with the canonical suffixes (thorough: with every
-\* suffix spelling for decimal and hexadecimal literals); digit separators are C++14
+\* suffix spelling for decimal literals); digit separators are C++14
 IntLitSpellings ==
   LET plain == {Lit(f, n, "none", s) : f \in Forms, n \in Boundaries, s \in AllSuffixes}
       seps == IF Lang # "c++" THEN {}
@@ -75,7 +75,7 @@ IntLitSpellings ==
                                        s \in IF Thorough THEN AllSuffixes ELSE CanonSuffixes}
       \* quick: every suffix spelling only for decimal literals, canonical suffixes for the other forms, one separator style
       keep(l) == IF l.sep = "none" THEN Thorough \/ l.suffix \in CanonSuffixes \/ l.prefix = <<>>
-                 ELSE (Thorough /\ (l.suffix \in CanonSuffixes \/ l.base \in {10, 16}))
+                 ELSE (Thorough /\ (l.suffix \in CanonSuffixes \/ l.base = 10))
                       \/ (l.sep = "group" /\ l.suffix \in {<<>>, <<"u", "l", "l">>})
   IN  {l \in plain \cup seps : keep(l) /\ StyleDistinct(l) /\ IntLitType(l, P) # "?"}
 
@@ -115,7 +115,8 @@ FloatSpellings ==
   IN  {l \in dec \cup hex \cup intexp :
          /\ FracExactSmall(FloatLitFrac(l))
          \* quick: fewer suffix spellings and exponents
-         /\ (Thorough \/ (l.suffix \in {<<>>, <<"f">>, <<"L">>} /\ l.exp \in {0, 3, -2} /\ Len(l.fp) <= 2 /\ Len(l.ip) <= 2))}
+         /\ (l.suffix \in {<<>>, <<"f">>, <<"L">>} \/ (Thorough /\ l.exp = 0))
+         /\ (Thorough \/ (l.exp \in {0, 3, -2} /\ Len(l.fp) <= 2 /\ Len(l.ip) <= 2))}
 
 --------------------------------------------------------------------------
 (* Leaves of the constant expressions *)
@@ -130,7 +131,7 @@ MaxOf(b) == IMax(Bits(b, P), IsSigned(b, P)).mag
 SixTypes == {"int", "uint", "long", "ulong", "llong", "ullong"}
 
 \* one and the maximum of each of the six types, spelled with the suffix that selects the type (quick: fewer ones)
-TypedLeaves == {IntE(<<"1">>, SuffixOf(b)) : b \in IF Thorough THEN SixTypes ELSE {}}
+TypedLeaves == {IntE(<<"1">>, SuffixOf(b)) : b \in IF Thorough THEN {"int", "uint", "llong"} ELSE {}}
                \cup {IntE(Dec(MaxOf(b)), SuffixOf(b)) : b \in SixTypes}
 SmallLeaves(ns) == {IntE(Dec(NFromSmall(n)), <<>>) : n \in ns}
 HexLeaves == {HexE(<<"8", "0", "0", "0", "0", "0", "0", "0">>, <<>>)}
@@ -141,16 +142,15 @@ BoolLeaves == IF Lang = "c++" THEN {[k |-> "bool", v |-> TRUE]} ELSE {}
 WellTyped(e) == Eval(e, Lang, P).ok
 Leaves ==
   {e \in TypedLeaves \cup HexLeaves \cup ChrLeaves \cup BoolLeaves
-         \cup SmallLeaves(IF Thorough THEN {0, 1, 2, 7, 31, 32, 63, 64} ELSE {0, 2, 31})
+         \cup SmallLeaves(IF Thorough THEN {0, 2, 7, 31, 32, 63, 64} ELSE {0, 2, 31})
          \cup (IF Thorough THEN {IntE(Dec(NAdd(MaxOf("int"), <<1>>)), <<>>), IntE(Dec(NAdd(MaxOf("uint"), <<1>>)), <<>>),
-                                 HexE(<<"7", "f", "f", "f", "f", "f", "f", "f">>, <<>>),
                                  HexE(<<"f", "f", "f", "f", "f", "f", "f", "f", "f", "f", "f", "f", "f", "f", "f", "f">>, <<>>),
-                                 ChrE(<<ElOct(<<"0">>)>>), [k |-> "bool", v |-> FALSE]} ELSE {}) :
+                                 [k |-> "bool", v |-> FALSE]} ELSE {}) :
      WellTyped(e)}
 \* a small set for the nested stratum
 Core == {e \in {IntE(<<"1">>, <<>>), IntE(Dec(MaxOf("int")), <<>>), IntE(Dec(MaxOf("uint")), <<"u">>),
                 ChrE(<<ElHex(<<"f", "f">>)>>)}
-               \cup (IF Thorough THEN {IntE(<<"2">>, <<>>), IntE(<<"1">>, <<"u">>), IntE(<<"1">>, <<"l">>), IntE(<<"1">>, <<"u", "l">>), IntE(<<"1">>, <<"l", "l">>),
+               \cup (IF Thorough THEN {IntE(<<"1">>, <<"u">>), IntE(<<"1">>, <<"l", "l">>),
                                        IntE(Dec(MaxOf("ullong")), <<"u", "l", "l">>)} ELSE {}) : WellTyped(e)}
 
 ArithOps == {"+", "-", "*", "/", "%"}
